@@ -28,17 +28,17 @@ import (
 
 func cases(tier string) int {
 	if tier == "thorough" {
-		return 16000 // 8000 Python modules + 8000 Go files (primary files; sibling files come on top)
+		return 48000 // (was 16000) 8000 Python modules + 8000 Go files (primary files; sibling files come on top)
 	}
-	return 800 // 400 + 400
+	return 2400 // 1200 + 1200
 }
 
 // every Nth case of each language also goes through the real main (coca-python / coca-golang)
 func cliEvery(tier string) int {
 	if tier == "thorough" {
-		return 8 // 1000 + 1000 CLI cases (plus the large Python modules)
+		return 24 // 1000 + 1000 CLI cases (plus the large Python modules)
 	}
-	return 4 // 100 + 100 CLI cases (plus the large Python modules)
+	return 8 // 150 + 150 CLI cases (plus the large Python modules)
 }
 
 var Check = &run.Check{
